@@ -144,8 +144,10 @@ namespace rkverif_c04 {
     take(vec3f(a2, 1.f)); take(vec3fa(a2, 1.f)); take(vec4f(a2, a2)); take(vec4f(a, 1.f)); take(vec4f(aa, 1.f));
     take(vec3i(i2, 1)); take(vec3f(i2, 1.f));
     take(vec3f(aa));          // vec_t<T,3,true>::operator vec_t<T,3>() or converting constructor
-    vec3f viaop = aa.operator vec_t<float, 3>();
+    const vec3f &viaop = aa;  // implicit conversion vec_t<T,3,true> -> vec_t<T,3> (conversion function), bound to a reference
     take(viaop);
+    const vec_t<int, 3> &viaop_i = vec_t<int, 3, true>(1, 2, 3);
+    take(viaop_i);
     take(vec3fa(a));
     take(vec3f(1.f, 2.f, 3.f)); take(vec2f(1.f, 2.f)); take(vec4f(1.f, 2.f, 3.f, 4.f)); take(vec3fa(1.f, 2.f, 3.f));
     take(linear_to_srgba(a4)); take(cvt_uint32(a4)); take(linear_to_srgba8(a4)); take(cvt_uint32(1.f));
